@@ -1,3 +1,4 @@
+import Op2Proofs.GenTactics
 import Op2Proofs.Map.Read
 import Op2Proofs.Map.Saved
 import Op2Model.Gen.Layout
@@ -27,16 +28,19 @@ theorem C07_gen_constants :
     Gen.Constants.map_savedGameSkip = savedGameSkip ∧ Gen.Constants.map_tilesetHeader = marker.map (·.toNat) := by decide
 
 /-- `MapHeader::WidthInTiles` as translated from the source is the checked shift wherever that is defined -/
-theorem C07_gen_WidthInTiles : ∀ k : Nat, k < 32 → Gen.Formulas.gen_WidthInTiles (k : Int) = ((2 ^ k : Nat) : Int) := by
+theorem C07_gen_WidthInTiles : Gen.Formulas.gen_WidthInTiles_translated = true →
+    ∀ k : Nat, k < 32 → Gen.Formulas.gen_WidthInTiles (k : Int) = ((2 ^ k : Nat) : Int) := by
   decide
 
 theorem C07_shlOne (k : Nat) (hk : k < 32) : shlOne k = .ok (2 ^ k) := by
   have hp : 2 ^ k ≤ 2 ^ 31 := Nat.pow_le_pow_right (by omega) (by omega)
   unfold shlOne; rw [if_neg (by omega)]; unfold u32 W32; rw [Nat.mod_eq_of_lt (by omega)]
 
+open Op2.GenTactics in
 /-- `MapHeader::TileCount` as translated from the source is `height << lg` reduced to 32 bits -/
-theorem C07_gen_TileCount (h k : Nat) (hk : k < 32) :
+theorem C07_gen_TileCount (h k : Nat) (hk : k < 32) : Gen.Formulas.gen_TileCount_translated = true →
     Gen.Formulas.gen_TileCount (h : Int) (k : Int) = ((u32 (h * 2 ^ k) : Nat) : Int) ∧ shl32 h k = .ok (u32 (h * 2 ^ k)) := by
+  gen_guard =>
   constructor
   · unfold Gen.Formulas.gen_TileCount Gen.Formulas.castU u32 W32
     simp only [Int.toNat_natCast]
